@@ -19,6 +19,8 @@ class Peer:
         self.children = []            # dicts: my_spi (our inbound), peer_spi (their inbound), proto
         self.next_mid = 0             # Message ID of our next request
         self.outstanding = {}         # mid -> kind of our own request
+        self.responses = {}           # mid -> payloads of the response to our own request
+        self.auth_inner = None        # payloads of the IKE_AUTH request we answered
         self.log = []
 
     # ------------------------------------------------------------------ helpers
@@ -52,6 +54,7 @@ class Peer:
             return False
         sim.net.remove(areq)
         hdr, inner, _i = self.p.open(areq.data)
+        self.auth_inner = inner
         sa = next(x for x in inner if x['type'] == codec.SA)
         self.children.append({'my_spi': self.p.child_spi, 'peer_spi': sa['proposals'][0]['spi'], 'proto': sa['proposals'][0]['proto']})
         sim.inject(ep, self.my_addr, self.peer_addr, self.p.respond_auth(areq.data, self.ident[0], self.ident[1], 2, self.p.auth_psk(self.psk, *self.ident)))
@@ -70,6 +73,7 @@ class Peer:
                 continue
             if hdr['flags'] & 0x20:
                 kind = self.outstanding.pop(hdr['mid'], None)
+                self.responses[hdr['mid']] = inner
                 out.append(('response', kind))
                 self._took_response(kind, inner)
                 continue
@@ -159,6 +163,21 @@ class Peer:
             ike = {'type': codec.DELETE, 'critical': False, 'proto': 1, 'spis': []}
             pls = [ike] + pls if ike_first else pls + [ike]
         return self.send(sim, ep, 37, pls, ('delete', list(which)))
+
+    def create_child(self, sim, ep, proto, transforms, tsi, tsr, transport, rekey_of=None, ke=None):
+        """Our own CREATE_CHILD_SA request: a new CHILD_SA, or (rekey_of = one of self.children) the rekey of one. Returns (Message ID, our SPI)."""
+        spi = self.rb(4)
+        pls = []
+        if rekey_of is not None:
+            pls.append(N(16393, b'', proto=rekey_of['proto'], spi=rekey_of['my_spi']))
+        pls += [{'type': codec.SA, 'critical': False, 'proposals': [{'num': 1, 'proto': proto, 'spi': spi, 'transforms': transforms}]},
+                {'type': codec.NONCE, 'critical': False, 'data': self.rb(32)}]
+        if ke is not None:
+            pls.append({'type': codec.KE, 'critical': False, 'group': ke[0], 'data': ke[1]})
+        pls += [{'type': codec.TSI, 'critical': False, 'selectors': tsi}, {'type': codec.TSR, 'critical': False, 'selectors': tsr}]
+        if transport:
+            pls.append(N(16391))
+        return self.send(sim, ep, 36, pls, ('create-child', None)), spi
 
     def probe(self, sim, ep):
         return self.send(sim, ep, 37, [], ('dpd', None))
